@@ -213,6 +213,7 @@ func checkC03(P *Prog, r *Result) {
 	P.checkIndexAgreement(r)
 	P.checkStructWritesByField(r)
 	P.checkPointerAlloc(r)
+	P.checkFieldNameRule(r, "C03/field-name-rule")
 	// with no issues reported a leaf holds the coercion of *its* input: a catch value replaces it only when that
 	// node itself failed, never because Exit / CanCatch were left set by a sibling or an earlier element (C05's rule)
 	shareRule(P, r, checkC05, "C05/confinement", nil, "C03/catch-value-only-on-own-failure", 10)
@@ -1497,4 +1498,135 @@ func isIndexSegment(v, iv ssa.Value, depth int) bool {
 		return n > 0 && all
 	}
 	return false
+}
+
+// checkFieldNameRule: a schema key names the destination field whose name is the key with an initial ASCII
+// lower-case letter turned into upper case ("name" -> Name, "zip" -> Zip, "Name" -> Name). In the code units of the
+// struct node, both modes, the subtraction of 32 from the key's first byte happens exactly when that byte is in
+// 'a'..'z': the comparisons that guard it are evaluated on all 256 byte values. A range that leaves out 'a' or 'z'
+// makes every key starting with that letter miss its field (the node panics "missing expected schema key").
+func (P *Prog) checkFieldNameRule(r *Result, rule string) {
+	R := P.roles
+	firstByteOf := func(v ssa.Value) ssa.Value {
+		v = cv(v)
+		if c, ok := v.(*ssa.Convert); ok {
+			v = cv(c.X)
+		}
+		// s[0] of a string is an ssa.Index (an ssa.Lookup in older forms of the IR)
+		var x, idx ssa.Value
+		switch lk := v.(type) {
+		case *ssa.Index:
+			x, idx = lk.X, lk.Index
+		case *ssa.Lookup:
+			x, idx = lk.X, lk.Index
+		default:
+			return nil
+		}
+		if b, isB := x.Type().Underlying().(*types.Basic); !isB || b.Info()&types.IsString == 0 {
+			return nil
+		}
+		if k, isK := constInt(idx); !isK || k != 0 {
+			return nil
+		}
+		return cv(x)
+	}
+	for _, mode := range []struct {
+		name string
+		fn   *ssa.Function
+	}{{"process", R.Process["StructSchema"]}, {"validate", R.Validate["StructSchema"]}} {
+		if mode.fn == nil {
+			r.undecided(rule, "StructSchema."+mode.name, "-", "method not found")
+			continue
+		}
+		n := 0
+		var problems []string
+		for _, u := range P.allUnits(mode.fn) {
+			u := u
+			u.with(func() {
+				eachInstr(u.fn, func(b *ssa.BasicBlock, _ int, in ssa.Instruction) {
+					bo, ok := in.(*ssa.BinOp)
+					if !ok || bo.Op != token.SUB {
+						return
+					}
+					if k, isK := constInt(bo.Y); !isK || k != 32 {
+						return
+					}
+					str := firstByteOf(bo.X)
+
+					if str == nil {
+						return
+					}
+					n++
+					// the byte values for which every guard on the way here holds
+					accepted := 0
+					lo, hi := -1, -1
+					for bv := int64(0); bv < 256; bv++ {
+						all, known := true, false
+						for _, gd := range guardsOf(b) {
+							cmp, ok := cv(gd.If.Cond).(*ssa.BinOp)
+							if !ok {
+								continue
+							}
+							var k int64
+							var isK bool
+							var op token.Token
+							switch {
+							case firstByteOf(cmp.X) == str:
+								k, isK = constInt(cmp.Y)
+								op = cmp.Op
+							case firstByteOf(cmp.Y) == str:
+								k, isK = constInt(cmp.X)
+								// mirror the operator: k OP byte
+								op = map[token.Token]token.Token{token.LSS: token.GTR, token.LEQ: token.GEQ, token.GTR: token.LSS, token.GEQ: token.LEQ, token.EQL: token.EQL, token.NEQ: token.NEQ}[cmp.Op]
+							default:
+								continue
+							}
+							if !isK {
+								continue
+							}
+							known = true
+							var holds bool
+							switch op {
+							case token.LSS:
+								holds = bv < k
+							case token.LEQ:
+								holds = bv <= k
+							case token.GTR:
+								holds = bv > k
+							case token.GEQ:
+								holds = bv >= k
+							case token.EQL:
+								holds = bv == k
+							case token.NEQ:
+								holds = bv != k
+							}
+							if holds != gd.True {
+								all = false
+							}
+						}
+						if known && all {
+							accepted++
+							if lo < 0 {
+								lo = int(bv)
+							}
+							hi = int(bv)
+						}
+					}
+					if accepted != 26 || lo != 'a' || hi != 'z' {
+						problems = append(problems, fmt.Sprintf("the first byte of the key is turned to upper case for %d byte values, %d..%d, instead of exactly 'a'..'z' (97..122) at %s", accepted, lo, hi, P.ipos(in)))
+					}
+				})
+			})
+		}
+		c := "StructSchema." + mode.name
+		switch {
+		case n == 0:
+			r.undecided(rule, c, P.pos(mode.fn.Pos()), "no `key[0] - 32` found in the struct node's code: the rule that maps a schema key to its field name is written in a form this rule does not know")
+		case len(problems) > 0:
+			r.bad(rule, c, P.pos(mode.fn.Pos()), strings.Join(uniqSorted(problems), "; "))
+		default:
+			r.ok(rule, c, P.pos(mode.fn.Pos()), "key[0] is turned to upper case exactly when it is in 'a'..'z'")
+		}
+	}
+	r.floor(rule, 2)
 }
